@@ -58,6 +58,27 @@ def _metric(spec, thr, k):
         # undefined (NaN) on samples without a predicted positive at the threshold
         f = lambda s, threshold: s.cm(threshold).ppv()  # noqa: E731
         return f, dict(threshold=thr), lambda o: np.asarray(o.cm(thr).ppv())
+    if name == "call-buffer":
+        # an out=-style metric: fills one pre-allocated array and returns it (every call the same object)
+        buf = np.zeros(thr.shape)
+
+        def into_buffer(s, threshold):
+            np.copyto(buf, s.fnr(threshold))
+            return buf
+
+        return into_buffer, dict(threshold=thr), lambda o: np.array(o.fnr(thr), dtype=float, copy=True)
+    if name == "call-named-like-method":
+        # a user function that happens to be called like a method of the class; it is the function
+        # that was passed, not the method, that has to be bootstrapped
+        def auc(s, upper):
+            return s.auc(0.0, upper) / upper
+
+        return auc, dict(upper=0.5), lambda o: np.asarray(o.auc(0.0, 0.5) / 0.5)
+    if name == "call-named-like-rate":
+        def fpr(s, threshold, k):
+            return k * s.fnr(threshold)
+
+        return fpr, dict(threshold=thr, k=k), lambda o: np.asarray(k * o.fnr(thr))
     if name == "call-mean":
         f = lambda s: np.asarray([s.pos.mean(), s.neg.mean()])  # noqa: E731
         return f, {}, lambda o: np.asarray([o.pos.mean(), o.neg.mean()])
@@ -66,7 +87,8 @@ def _metric(spec, thr, k):
 
 SCORE_METRICS = ["tpr", "fnr", "fpr", "tonr", "threshold_at_fnr", "threshold_at_tpr", "threshold_at_tnr",
                  "threshold_at_topr", "threshold_at_tar", "auc", "eer", "call-scalar",
-                 "call-vector", "call-vector", "call-scalar", "call-matrix", "call-mean", "call-ppv", "call-ppv"]
+                 "call-vector", "call-vector", "call-scalar", "call-matrix", "call-mean", "call-ppv", "call-ppv",
+                 "call-buffer", "call-buffer", "call-named-like-method", "call-named-like-rate"]
 GROUP_METRICS = ["group_fpr", "group_tnr", "group_fnr", "fnr", "call-vector", "call-mean"]
 
 
@@ -181,6 +203,8 @@ def _check(case, switch):
     thr = gen.np_array(case["thr"]["flat"], tuple(case["thr"]["shape"]))
     metric, kw, ref = _metric(case["metric"], thr, case["k"])
     ck = case.get("callable_kind", "function")
+    if str(case["metric"]).startswith("call-named"):
+        ck = "function"  # the point of these specs is the function's own name
     if not isinstance(metric, str):
         metric = gen.wrap_callable(metric, ck)  # callables come in many shapes
     nb = case["nb"]
